@@ -42,31 +42,51 @@ NulledPositions(resp) == {NullPrefix(resp.data, resp.errors[k], 0) : k \in 1..Le
 \* CoerceVariableValues: -> [ok, vals: [name -> value]] ; values are Null or [t |-> "i"/"b", v]
 Provided(vars, n) == n \in DOMAIN vars
 \* input coercion of a provided variable value / of a default literal (constants only): -> [ok, v]
-\* Int, Boolean and lists of them; a single value at a list type is wrapped into a list of one item
-RECURSIVE VarCoerce(_, _)
-VarCoerce(ty, v) ==
+\* Int, Boolean, input objects and lists of them; a single value at a list type is wrapped into a list of one item
+\* S = the schema (input object types: S.types[n].inputFields = Seq([name, type, hasDefault, default]))
+ConstDefault(f) == f.default          \* a constant literal in wire form; coerced below like a value (no variables inside)
+RECURSIVE VarCoerce(_, _, _), VarCoerceObj(_, _, _, _)
+VarCoerce(S, ty, v) ==
   IF v = Null THEN [ok |-> ~IsNN(ty), v |-> Null]
-  ELSE IF IsNN(ty) THEN VarCoerce(ty[2], v)
+  ELSE IF IsNN(ty) THEN VarCoerce(S, ty[2], v)
   ELSE IF IsL(ty) THEN
        (IF v.t = "l"
-        THEN LET rs == [k \in 1..Len(v.v) |-> VarCoerce(ty[2], v.v[k])] IN
+        THEN LET rs == [k \in 1..Len(v.v) |-> VarCoerce(S, ty[2], v.v[k])] IN
              [ok |-> \A k \in 1..Len(rs) : rs[k].ok, v |-> [t |-> "l", v |-> [k \in 1..Len(rs) |-> rs[k].v]]]
-        ELSE LET r == VarCoerce(ty[2], v) IN [ok |-> r.ok, v |-> [t |-> "l", v |-> <<r.v>>]])
-  ELSE LET nm == NamedOf(ty) IN [ok |-> (nm = "Int" /\ v.t = "i") \/ (nm = "Boolean" /\ v.t = "b"), v |-> v]
-VarValueOK(ty, v) == VarCoerce(ty, v).ok
-RECURSIVE CoerceVars(_, _, _)
-CoerceVars(defs, vars, acc) ==
+        ELSE LET r == VarCoerce(S, ty[2], v) IN [ok |-> r.ok, v |-> [t |-> "l", v |-> <<r.v>>]])
+  ELSE LET nm == NamedOf(ty) IN
+       IF nm \in DOMAIN S.types /\ S.types[nm].kind = "INPUT_OBJECT"
+       \* spec 3.10 Input Coercion of a map: every entry names a field; field by field in definition order - an entry (also an
+       \* explicit null) is coerced to the field type, a missing one takes the default, is an error if required, or stays out
+       THEN (IF v.t # "o" THEN [ok |-> FALSE, v |-> Null]
+             ELSE LET fs == S.types[nm].inputFields
+                      known == \A k \in 1..Len(v.kv) : \E j \in 1..Len(fs) : fs[j].name = v.kv[k][1]
+                  IN IF ~known THEN [ok |-> FALSE, v |-> Null] ELSE VarCoerceObj(S, v, fs, [ok |-> TRUE, kv |-> <<>>]))
+       ELSE [ok |-> (nm = "Int" /\ v.t = "i") \/ (nm = "Boolean" /\ v.t = "b"), v |-> v]
+VarCoerceObj(S, v, fs, acc) ==
+  IF fs = <<>> THEN [ok |-> acc.ok, v |-> IF acc.ok THEN [t |-> "o", kv |-> acc.kv] ELSE Null]
+  ELSE LET f == Head(fs)
+           given == \E k \in 1..Len(v.kv) : v.kv[k][1] = f.name
+       IN IF given
+          THEN LET r == VarCoerce(S, f.type, v.kv[CHOOSE k \in 1..Len(v.kv) : v.kv[k][1] = f.name][2]) IN
+               VarCoerceObj(S, v, Tail(fs), [ok |-> acc.ok /\ r.ok, kv |-> Append(acc.kv, <<f.name, r.v>>)])
+          ELSE IF f.hasDefault THEN VarCoerceObj(S, v, Tail(fs), [acc EXCEPT !.kv = Append(@, <<f.name, VarCoerce(S, f.type, ConstDefault(f)).v>>)])
+          ELSE IF IsNN(f.type) THEN [ok |-> FALSE, v |-> Null]
+          ELSE VarCoerceObj(S, v, Tail(fs), acc)
+VarValueOK(S, ty, v) == VarCoerce(S, ty, v).ok
+RECURSIVE CoerceVars(_, _, _, _)
+CoerceVars(S, defs, vars, acc) ==
   IF defs = <<>> THEN [ok |-> TRUE, vals |-> acc]
   ELSE LET d == Head(defs) IN
        IF Provided(vars, d.name)
-       THEN LET r == VarCoerce(d.type, vars[d.name]) IN
+       THEN LET r == VarCoerce(S, d.type, vars[d.name]) IN
             IF r.ok
-            THEN CoerceVars(Tail(defs), vars, [n \in DOMAIN acc \cup {d.name} |-> IF n = d.name THEN r.v ELSE acc[n]])
+            THEN CoerceVars(S, Tail(defs), vars, [n \in DOMAIN acc \cup {d.name} |-> IF n = d.name THEN r.v ELSE acc[n]])
             ELSE [ok |-> FALSE, vals |-> acc]
        ELSE IF d.hasDefault
-            THEN CoerceVars(Tail(defs), vars, [n \in DOMAIN acc \cup {d.name} |-> IF n = d.name THEN VarCoerce(d.type, d.default).v ELSE acc[n]])
+            THEN CoerceVars(S, Tail(defs), vars, [n \in DOMAIN acc \cup {d.name} |-> IF n = d.name THEN VarCoerce(S, d.type, d.default).v ELSE acc[n]])
        ELSE IF IsNN(d.type) THEN [ok |-> FALSE, vals |-> acc]
-       ELSE CoerceVars(Tail(defs), vars, acc)            \* no entry: the variable is absent
+       ELSE CoerceVars(S, Tail(defs), vars, acc)            \* no entry: the variable is absent
 
 \* ---- CollectFields -------------------------------------------------------
 Matches(S, cond, objType) ==
@@ -264,7 +284,7 @@ Complete(R, ty, fs, oc, path, errs, calls) ==
 
 \* R0 = [schema, doc, vars, root]
 Execute(R0) ==
-  LET cv == CoerceVars(R0.doc.vardefs, R0.vars, <<>>) IN
+  LET cv == CoerceVars(R0.schema, R0.doc.vardefs, R0.vars, <<>>) IN
   IF ~cv.ok THEN [data |-> [t |-> "absent"], errors |-> <<>>, calls |-> <<>>, requestError |-> TRUE]
   ELSE LET R == [schema |-> R0.schema, doc |-> R0.doc, vals |-> cv.vals, noIncr |-> "noIncr" \in DOMAIN R0 /\ R0.noIncr,
                     wd |-> {R0.doc.vardefs[k].name : k \in {j \in 1..Len(R0.doc.vardefs) : R0.doc.vardefs[j].hasDefault}}]
